@@ -194,3 +194,48 @@ pub fn armor_read_from_buf_line(
     };
     (res, src.rest())
 }
+
+/// Drives the literal data writers of the message builder with the given request sizes
+/// (cycled; a request of 0 is taken as 1) until they report the end, and returns what they
+/// handed out: `fixed` selects the writer for a source of known length, otherwise the
+/// streamed writer with partial lengths of `chunk_size`.
+pub fn literal_generator_run(
+    fixed: bool,
+    chunk_size: u32,
+    data: &[u8],
+    reqs: &[usize],
+) -> crate::errors::Result<Vec<u8>> {
+    use std::io::Read;
+
+    use crate::packet::{
+        DataMode, LiteralDataFixedGenerator, LiteralDataHeader, LiteralDataPartialGenerator,
+    };
+
+    fn drive<R: Read>(mut r: R, reqs: &[usize]) -> io::Result<Vec<u8>> {
+        let mut out = Vec::new();
+        let mut buf = vec![0u8; 1 << 16];
+        let mut i = 0usize;
+        loop {
+            let want = if reqs.is_empty() {
+                buf.len()
+            } else {
+                reqs[i % reqs.len()].clamp(1, buf.len())
+            };
+            i += 1;
+            let n = r.read(&mut buf[..want])?;
+            if n == 0 {
+                return Ok(out);
+            }
+            out.extend_from_slice(&buf[..n]);
+        }
+    }
+
+    let header = LiteralDataHeader::new(DataMode::Binary);
+    let out = if fixed {
+        let len = u32::try_from(data.len())?;
+        drive(LiteralDataFixedGenerator::new(header, data, len)?, reqs)?
+    } else {
+        drive(LiteralDataPartialGenerator::new(header, data, chunk_size)?, reqs)?
+    };
+    Ok(out)
+}
